@@ -67,6 +67,7 @@ type driver struct {
 	real      *realTracker
 	rejectN   atomic.Int64
 	gate      *gcGate
+	mapGate   atomic.Pointer[mapGate]
 	faultAt   atomic.Pointer[string] // the next creation of a table file whose path contains this fails (one shot)
 	gcMu      sync.Mutex
 	gen       map[partKey]int
@@ -179,7 +180,7 @@ func runHistory(idx int, dir, tier string, seed, t0 int64) *ledger {
 	d := &driver{dir: dir, L: L, plan: p, world: world, parts: map[partKey]*partState{}, bySeq: map[partKey]map[int64]int{}, arrCh: make(chan func(), 4), gate: &gcGate{}}
 	ic := &hookIC{world: world, before: d.before, fault: d.fault}
 	seam.NoFsync = true
-	seam.InstallKV(ic, nil)
+	seam.InstallKV(ic, &seam.Observer{AfterMap: d.afterMap})
 	seam.InstallIndexSequence(ic)
 	seam.InstallQueuePages(ic, nil)
 	go func() {
@@ -279,6 +280,8 @@ func (d *driver) runStep(s *planStep) {
 		d.walGC()
 	case "close":
 		d.shutdown(s)
+	case "cleanup-race":
+		d.cleanupRace(s)
 	case "recreate":
 		d.recreate(partKey{Shard: s.Shard, Family: s.Family})
 	case "meta":
@@ -642,6 +645,83 @@ func (d *driver) racingPossible(rows []rowRec) bool {
 		}
 	}
 	return true
+}
+
+// mapGate parks the goroutine that maps a table file whose path contains match (one shot): with match = the shard's
+// index store that is the shard's index worker looking a series up.
+type mapGate struct {
+	match   string
+	taken   atomic.Bool
+	parked  chan struct{}
+	release chan struct{}
+}
+
+func (d *driver) afterMap(path string) {
+	g := d.mapGate.Load()
+	if g == nil || !strings.Contains(path, g.match) || !g.taken.CompareAndSwap(false, true) {
+		return
+	}
+	close(g.parked)
+	<-g.release
+}
+
+// cleanupRace: see directed history 2003.
+func (d *driver) cleanupRace(s *planStep) {
+	if len(s.Actions) != 3 {
+		return
+	}
+	psA := d.parts[partKey{Shard: s.Shard, Family: s.Actions[0].Rows[0].Family}]
+	psC := d.parts[partKey{Shard: s.Shard, Family: s.Actions[1].Rows[0].Family}]
+	psB := d.parts[partKey{Shard: s.Shard, Family: s.Actions[2].Rows[0].Family}]
+	// A: a point of a series the memory index knows - the index worker is not involved
+	d.appendRows(s.Actions[0].Rows, 1, false)
+	for psA.rep.Pending() > 0 {
+		d.stepOnce(psA)
+	}
+	// C: a new series; the index worker looks its tags up in the flushed series table and is parked there
+	g := &mapGate{match: fmt.Sprintf("/shard/%d/index/", s.Shard), parked: make(chan struct{}), release: make(chan struct{})}
+	d.mapGate.Store(g)
+	var wg sync.WaitGroup
+	d.appendRows(s.Actions[1].Rows, 1, false)
+	wg.Add(1)
+	go func() { defer wg.Done(); d.stepOnce(psC) }()
+	select {
+	case <-g.parked:
+	case <-time.After(15 * time.Second):
+		d.problem("the index worker did not reach the table lookup it was to be parked at")
+		close(g.release)
+		wg.Wait()
+		return
+	}
+	// B: the first row of a brand-new metric: WriteRow creates its time series index and hands the row to the (parked) worker
+	d.appendRows(s.Actions[2].Rows, 1, false)
+	wg.Add(1)
+	go func() { defer wg.Done(); d.stepOnce(psB) }()
+	written := false
+	for i := 0; i < 3000 && !written; i++ { // pacing: until the row is in the memory database of B
+		for _, m := range psB.fam.DataFamily.GetState().MemoryDatabases {
+			if m.State == "mutable" && m.NumOfSeries > 0 {
+				written = true
+			}
+		}
+		if !written {
+			time.Sleep(2 * time.Millisecond)
+		}
+	}
+	if !written {
+		d.problem("the row of the new metric did not reach the memory database while the index worker was parked")
+	}
+	// A: flush and close its memory database (IndexDatabase.Cleanup runs for the shard)
+	d.flushData(&planStep{Kind: "data", Cycle: s.Cycle, CycKind: "cleanup-race", Shard: s.Shard, Family: psA.key.Family})
+	close(g.release)
+	done := make(chan struct{})
+	go func() { wg.Wait(); close(done) }()
+	select {
+	case <-done:
+		d.count("memory_database_closed_while_the_first_row_of_a_new_metric_waited_for_the_index_worker", 1)
+	case <-time.After(30 * time.Second):
+		d.problem("replication of the rows that waited for the index worker did not complete")
+	}
 }
 
 // fault answers whether the operation fails instead of running (injected table file fault).
